@@ -336,8 +336,12 @@ class NodeBase(object):
         """
         Sets this node's stale property to True.
         """
-        if not self.stale and not self.frozen:
-            self._stale = True
+        if not self.stale:
+            if not self.frozen:
+                self._stale = True
+                self.notify_parents()
+        elif any(not _p.stale for _p in self.iter_parents()) and not self.frozen:
+            # An update of this node failed while a parent went on to compute its value (Fallback): the parent still has to be told.
             self.notify_parents()
 
     def update(self):
